@@ -150,3 +150,24 @@ Proof.
   unfold sparse_aligned_b. destruct (sparse_sigma cols chans r) as [sigma|]; [|discriminate].
   rewrite andb_true_iff, zll_eqb_eq, zl_eqb_eq. intros [H1 H2]. exists sigma. split; [reflexivity|]. now split.
 Qed.
+
+Lemma index_of_nat_spec x l j : index_of_nat x l = Some j -> (j < length l)%nat /\ nth j l 0%nat = x.
+Proof.
+  revert j; induction l as [|y r IH]; intros j; cbn [index_of_nat]; [discriminate|].
+  destruct (Nat.eqb x y) eqn:E.
+  - intros H; injection H as <-. apply Nat.eqb_eq in E. cbn [length nth]. split; [lia|congruence].
+  - destruct (index_of_nat x r) as [k|]; [|discriminate]. cbn [option_map]. intros H; injection H as <-.
+    destruct (IH k eq_refl) as [H1 H2]. cbn [length nth]. split; [lia|assumption].
+Qed.
+
+Theorem sparse_sorted_b_sound cols chans r : sparse_sorted_b r = true -> Sparse_sorted cols chans r.
+Proof.
+  unfold sparse_sorted_b, Sparse_sorted. rewrite !andb_true_iff. intros [[[H1 H2] H3] H4].
+  split; [now apply nonincreasing_b_spec|]. split; [|split].
+  - destruct (index_of_nat (t_best r) (t_channels r)) as [j|] eqn:Ej; [|discriminate].
+    destruct (index_of_nat_spec _ _ _ Ej) as [Hj1 Hj2]. exists j. repeat split; try assumption.
+    intros a Ha. rewrite forallb_forall in H3. now apply Z.leb_le, H3.
+  - intros a0 Ha0 a Ha. destruct (t_amplitude r) as [|x l]; [discriminate|]. injection Ha0 as <-.
+    rewrite forallb_forall in H4. now apply Z.leb_le, H4.
+  - intros _. now apply nodup_b_spec.
+Qed.
